@@ -60,3 +60,10 @@ Definition oq (o : option Q) : list Z := match o with Some q => qout q | None =>
 Definition find_eps_eval (A : list (list Q)) (x p : list Q) : list Z :=
   oq (find_eps_gen numQ (lap_gauss numQ A x p) lnhalf_lo 40)
   ++ oq (find_eps_gen numQ (lap_gauss numQ A x p) lnhalf_hi 40).
+
+(* one NUTS leaf on the same Gaussian target: a leapfrog step of (signed) size e from (x, p), and the joint
+   log-density log p(x') - |p'|^2/2 of the new point; rendered as position, momentum, joint *)
+Definition nuts_leaf_eval (A : list (list Q)) (e : Q) (x p : list Q) : list Z :=
+  let z' := leap1 numQ (prec_grad numQ A) e (x, p) in
+  qouts (fst z') ++ qouts (snd z')
+  ++ qout (sub numQ (prec_logp numQ A (fst z')) (kinetic numQ (snd z'))).
